@@ -386,6 +386,9 @@ theorem verifyMembers_sound (ms : List MMember) (cs fs cs' fs' : List Nat)
         have hn' : fn.name ∉ fs := fun hm => hn (List.contains_iff_mem.2 hm)
         split at h
         · simp at h
+        rename_i hdup
+        split at h
+        · simp at h
         · rename_i hck
           obtain ⟨a, b, c1, d, g⟩ := ih cs (fn.name :: fs) h hc (List.nodup_cons.2 ⟨hn', hf⟩)
           refine ⟨a, b, by simpa using c1, ?_, ?_⟩
@@ -396,6 +399,40 @@ theorem verifyMembers_sound (ms : List MMember) (cs fs cs' fs' : List Nat)
             rcases hf' with rfl | hf'
             · exact checkFunc_sound _ hck
             · exact g f' hf'
+
+/-- **(parameter names, whole chain; fix 20276c0)** every method that passes the member walk
+    has pairwise distinct parameter names -/
+theorem verifyMembers_params_nodup (ms : List MMember) (cs fs cs' fs' : List Nat)
+    (h : verifyMembers ms cs fs = .ok (cs', fs')) :
+    ∀ f ∈ ms.filterMap MMember.funcOf, (f.params.map (·.name)).Nodup := by
+  induction ms generalizing cs fs with
+  | nil => intro f hf; cases hf
+  | cons m ms ih =>
+    cases m with
+    | const c =>
+      simp only [verifyMembers] at h
+      split at h
+      · simp at h
+      · intro f hf; exact ih _ _ h f (by simpa using hf)
+    | error n v =>
+      simp only [verifyMembers] at h
+      split at h
+      · simp at h
+      · intro f hf; exact ih _ _ h f (by simpa using hf)
+    | func fn =>
+      simp only [verifyMembers] at h
+      split at h
+      · simp at h
+      split at h
+      · simp at h
+      rename_i hdup
+      split at h
+      · simp at h
+      · intro f hf
+        simp only [fm_func_func, List.mem_cons] at hf
+        rcases hf with rfl | hf
+        · simpa using hdup
+        · exact ih _ _ h f hf
 
 def chainConstErrNames : MIface → List Nat
   | [] => []
@@ -556,7 +593,8 @@ def wDupParamIncluded : FsModel :=
               ⟨1, [.iface ⟨30, none, [.func ⟨31, [⟨.inp, .prim .u32, .none, 40⟩, ⟨.out, .prim .u8, .none, 40⟩], false, false⟩]⟩], true⟩],
     dirOf := [(0, 0), (1, 0)], lookup := [(0, 5, 1)], rel := [] }
 
-theorem dup_param_included_accepted : isOk (compile .cli wDupParamIncluded [] 0) = true := by decide
+/-- refused since fix 20276c0 (was accepted: the AST pass sees the compiled file only) -/
+theorem dup_param_included_rejected : isOk (compile .cli wDupParamIncluded [] 0) = false := by decide
 
 /-- witness: `const uint8 ZX = 1; struct ZX { uint8 a; };` -/
 def wCrossKind : FsModel :=
